@@ -824,10 +824,13 @@ class ExcelInPython:
         if cell_uid in self._arguments:
             # an overridden cell is a constant now: its formula must not run (and must not fail) any more
             value = self._arguments[cell_uid]
-            # an override without a value clears the cell: it is blank now
-            return self.EmptyCell() if value is None else value
+            # an override without a value clears the cell: it is blank now; so is the blank object another generated class handed out
+            if value is None or (type(value).__name__ == 'EmptyCell' and not isinstance(value, self.EmptyCell)):
+                return self.EmptyCell()
+            # a date-only value is the date-time at its midnight, for every function alike
+            return self._at_midnight(value)
 
-        return method(self) if method else self.EmptyCell()
+        return self._at_midnight(method(self)) if method else self.EmptyCell()
 
     def exec_function_in(self, cell_uid: str):
         return self._cell_preprocessor(cell_uid)
